@@ -56,6 +56,13 @@ harness!(fub_drop_c2, fub::step_drop(&StepCfg { cap: 2, selfwakes: 0, mon: fub::
 // history witness: INV holds along real histories from a fresh collection
 harness!(reach_fub_c2_s3, crate::reach::bounded(2, 3));
 
+// constructors through the public API
+harness!(ctor_fub_from_iter, crate::ctor::fub_from_iter());
+harness!(ctor_fob_from_iter, crate::ctor::fob_from_iter());
+harness!(ctor_fu_0, crate::ctor::fu_ctor(0));
+harness!(ctor_fu_2, crate::ctor::fu_ctor(2));
+harness!(ctor_mb_from_iter, crate::ctor::mb_from_iter());
+
 // Layer S: the slot map by itself
 harness!(sm_step_c3, crate::sm::step(3));
 harness!(sm_step_c4, crate::sm::step(4));
@@ -102,6 +109,8 @@ harness!(ad_fe_n1, ad::step_for_each(&ACfg { n: 1, selfwakes: 0, parked: 0, max_
 harness!(ad_fe_n2, ad::step_for_each(&ACfg { n: 2, selfwakes: 0, parked: 0, max_remaining: 1 }));
 harness!(ad_fe_n0, ad::step_for_each(&ACfg { n: 0, selfwakes: 0, parked: 0, max_remaining: 1 }));
 harness!(ad_bo_n2, ad::step_buffered_ordered(&ACfg { n: 2, selfwakes: 0, parked: 1, max_remaining: 2 }, false));
+harness!(ad_bo_n1, ad::step_buffered_ordered(&ACfg { n: 1, selfwakes: 0, parked: 0, max_remaining: 2 }, false));
+harness!(ad_tbu_n1, ad::step_try_buffer_unordered(&ACfg { n: 1, selfwakes: 0, parked: 0, max_remaining: 2 }));
 harness!(ad_bo_n2_p0, ad::step_buffered_ordered(&ACfg { n: 2, selfwakes: 0, parked: 0, max_remaining: 2 }, false));
 harness!(ad_tbo_n2, ad::step_buffered_ordered(&ACfg { n: 2, selfwakes: 0, parked: 1, max_remaining: 2 }, true));
 // join_all / try_join_all
@@ -119,6 +128,8 @@ harness!(wl_shape2_c2, crate::wl::shape(2, 2));
 harness!(wl_shape2_c3, crate::wl::shape(3, 2));
 harness!(wl_shape3_c2, crate::wl::shape(2, 3));
 harness!(wl_layout, crate::wl::layout_arith());
+harness!(wl_real_stack_1, crate::wl::real_stack(1));
+harness!(wl_real_stack_2, crate::wl::real_stack(2));
 // the same shapes on the reference model (refinement: the model answers like the real list)
 harness!(wm_fifo_c2, crate::wl::fifo(2));
 harness!(wm_shape0_c2, crate::wl::shape(2, 0));
@@ -148,6 +159,11 @@ pub fn table() -> &'static [(&'static str, fn())] {
         ("fub_wake_c2", fub_wake_c2),
         ("fub_drop_c2", fub_drop_c2),
         ("sm_step_c3", sm_step_c3),
+        ("ctor_fub_from_iter", ctor_fub_from_iter),
+        ("ctor_fob_from_iter", ctor_fob_from_iter),
+        ("ctor_fu_0", ctor_fu_0),
+        ("ctor_fu_2", ctor_fu_2),
+        ("ctor_mb_from_iter", ctor_mb_from_iter),
         ("reach_fub_c2_s3", reach_fub_c2_s3),
         ("sm_step_c4", sm_step_c4),
         ("wm_lifecycle_c2", wm_lifecycle_c2),
@@ -160,6 +176,8 @@ pub fn table() -> &'static [(&'static str, fn())] {
         ("wl_shape2_c3", wl_shape2_c3),
         ("wl_shape3_c2", wl_shape3_c2),
         ("wl_layout", wl_layout),
+        ("wl_real_stack_1", wl_real_stack_1),
+        ("wl_real_stack_2", wl_real_stack_2),
         ("wm_shape3_c2", wm_shape3_c2),
         ("wm_fifo_c2", wm_fifo_c2),
         ("wm_shape0_c2", wm_shape0_c2),
@@ -195,6 +213,8 @@ pub fn table() -> &'static [(&'static str, fn())] {
         ("ad_fe_n0", ad_fe_n0),
         ("ad_bo_n2", ad_bo_n2),
         ("ad_bo_n2_p0", ad_bo_n2_p0),
+        ("ad_bo_n1", ad_bo_n1),
+        ("ad_tbu_n1", ad_tbu_n1),
         ("ad_tbo_n2", ad_tbo_n2),
         ("mb_poll_c2", mb_poll_c2),
         ("mb_poll_c2_quiet", mb_poll_c2_quiet),
